@@ -50,6 +50,13 @@ Set(st) == grid' = st.grid /\ r' = st.r /\ c' = st.c /\ wrapPending' = st.wp /\ 
 
 EraseRow(row, from, to) == [x \in 0..(W - 1) |-> IF x >= from /\ x <= to THEN 0 ELSE row[x]]
 
+\* the window changes size, xterm style: no reflow, rows are cut or padded on the right, kept from the top
+Resize(w, h) ==
+  /\ W' = w /\ H' = h
+  /\ grid' = [y \in 0..(h - 1) |-> [x \in 0..(w - 1) |-> IF y < H /\ x < W THEN grid[y][x] ELSE 0]]
+  /\ r' = Min(r, h - 1) /\ c' = Min(c, w - 1) /\ wrapPending' = FALSE
+  /\ UNCHANGED <<scrolled, hidden, cstyle>>
+
 \* the effect of one token t = [tok, cells, n, a, b]
 Apply(t) ==
   CASE t.tok = "print" -> Set(PutAll(St, t.cells, 1)) /\ UNCHANGED <<hidden, cstyle>>
